@@ -334,9 +334,15 @@ def rule_framing(tree: Tree) -> RuleResult:
         cont_ok = False
         for n in body_walk(f.node):
             if isinstance(n, ast.If) and isinstance(n.test, ast.Compare) and isinstance(n.test.ops[0], ast.NotEq):
-                s = src(n.test)
-                if f"self.{d}_packet_buffer[i].seq" in s and f"len(self.{d}_packet_buffer[i].tls_data)" in s and f"self.{d}_packet_buffer[i + 1].seq" in s:
-                    if any(isinstance(x, ast.Return) for x in n.body):
+                s = src(n.test, 400)
+                loopf = next((a for a in ancestors(n) if isinstance(a, ast.For)), None)
+                iv = dotted(loopf.target) if loopf is not None else None
+                if iv and f"self.{d}_packet_buffer[{iv}].seq" in s and f"len(self.{d}_packet_buffer[{iv}].tls_data)" in s and f"self.{d}_packet_buffer[{iv} + 1].seq" in s:
+                    # the loop must visit every adjacent pair: range(0, len(buffer) - 1) / range(len(buffer) - 1)
+                    it = loopf.iter
+                    full = (isinstance(it, ast.Call) and dotted(it.func) == "range" and src(it.args[-1]) == f"len(self.{d}_packet_buffer) - 1"
+                            and (len(it.args) == 1 or (len(it.args) == 2 and try_fold(it.args[0]) == 0)))
+                    if any(isinstance(x, ast.Return) for x in n.body) and full:
                         cont_ok = True
         sorted_first = False
         top = strip_stmts(f.node.body)
@@ -373,9 +379,14 @@ def rule_tls_causality(tree: Tree) -> RuleResult:
                            "released records are handled in release order and the release list is cleared")
     f = tree.func("session", "Session.get_tls_records")
     m = f.module
-    loops = [n for n in body_walk(f.node) if isinstance(n, ast.For) and dotted(n.iter) == "self.packet_buffer"]
+    cand = [n for n in body_walk(f.node) if isinstance(n, ast.For) and any(dotted(x) == "self.packet_buffer" for x in ast.walk(n.iter))]
+    if not cand:
+        raise AnchorMissing("get_tls_records: no loop over the session's packet buffer found")
+    loops = [n for n in cand if dotted(n.iter) == "self.packet_buffer"]
     r.instances += 1
-    r.ob(len(loops) == 1, Finding("CAUS", "session:Session.get_tls_records:single-pass", "get_tls_records must iterate self.packet_buffer exactly once, directly (not sorted/reversed/sliced)", m.line(f.node)))
+    r.ob(len(loops) == 1 and len(cand) == 1, Finding("CAUS", "session:Session.get_tls_records:single-pass",
+                                                      f"get_tls_records must iterate self.packet_buffer exactly once and directly, in capture order; found `for … in {src(cand[0].iter, 80)}` "
+                                                      f"(a sorted / reversed / sliced view lets later packets overtake earlier ones, so a longer capture can alter what a prefix exported)", m.line(cand[0])))
     if len(loops) != 1:
         return r
     loop = loops[0]
